@@ -2,13 +2,13 @@ SPECIFICATION MCSpec
 CONSTANTS
   InstOf <- Ident
   W = 64
-  Widths = {1, 3, 5, 7, 13, 31, 33, 63}
-  NThreads = {2}
+  Widths = {3, 7, 13, 31, 33}
+  NThreads = {2, 3}
   Menu = {"field"}
-  AllValues = TRUE
-  Rots = {0}
-  PatSet = {"zeros", "ones", "alt"}
-  Boundaries = {1}
+  AllValues = FALSE
+  Rots = {1}
+  PatSet = {"alt"}
+  Boundaries = {2}
   NearFields = 0
   EFN = {}
   EFMaxThreads = 3
